@@ -912,6 +912,7 @@ func (ls *LanceroSource) distributeData(buffersMsg BuffersChanType) *dataBlock {
 		block.nSamp = len(data)
 	}
 	ls.nextFrameNum += FrameIndex(framesUsed)
+	ls.nextFrameNum += FrameIndex(droppedFrames) // this block started that much later, so the next one must, too
 	ls.previousLastSampleTime = lastSampleTime
 	if ls.heartbeats != nil {
 		mb := float64(totalBytes) / 1e6
